@@ -844,6 +844,8 @@ pub trait TyDyn {
     fn nvalues(&self) -> usize;
     fn label(&self, i: usize) -> String;
     fn encode(&self, i: usize, c: Codec) -> Result<Vec<u8>, String>;
+    /// a clone of value #i equals it and encodes to the same bytes (Err = a panic)
+    fn clone_is_equal(&self, i: usize) -> Result<bool, String>;
     fn points_of(&self, i: usize) -> Vec<Vec<u8>>;
     fn scalars_of(&self, i: usize) -> Vec<Vec<u8>>;
     fn is_share_container(&self) -> bool;
@@ -914,6 +916,13 @@ impl<T: Consume<X>, X> TyDyn for Entry<T, X> {
     fn encode(&self, i: usize, c: Codec) -> Result<Vec<u8>, String> {
         guard(|| self.values[i].1.enc(c)).and_then(|r| r)
     }
+    fn clone_is_equal(&self, i: usize) -> Result<bool, String> {
+        guard(|| {
+            let v = &self.values[i].1;
+            let c = v.clone();
+            c == *v && c.to_b() == v.to_b() && c.clone().to_b_owned() == v.to_b()
+        })
+    }
     fn points_of(&self, i: usize) -> Vec<Vec<u8>> {
         self.values[i].1.points()
     }
@@ -947,6 +956,10 @@ pub fn generic_entries<C: Suite>(seed: u64, full: bool) -> Vec<Box<dyn TyDyn + S
     // scalars: 1, 128, r-1, derived
     let kidx = [0usize, 3, 7, 8, 10];
     let sks: Vec<(String, SecretKey<C>)> = kidx.iter().map(|i| (ka.names[*i].clone(), sk_from_be::<C>(&ka.be[*i]).unwrap())).collect();
+    let mut sks = sks;
+    for (n, b) in limb_edge_scalars() {
+        sks.push((format!("sk={}", n), SecretKey::<C>(sc_from_be::<C>(&b))));
+    }
     out.push(entry("SecretKey", g, &x, false, sks.clone()));
     out.push(entry("ProofCommitmentSecret", g, &x, false, sks.iter().map(|(n, k)| (n.clone(), ProofCommitmentSecret::<C>(k.0))).collect()));
     out.push(entry("ProofCommitmentChallenge", g, &x, false, sks.iter().map(|(n, k)| (n.clone(), ProofCommitmentChallenge::<C>(k.0))).collect()));
@@ -1024,6 +1037,12 @@ pub fn generic_entries<C: Suite>(seed: u64, full: bool) -> Vec<Box<dyn TyDyn + S
             })
             .collect()
     };
+    // share values at the edges of their 64 bit limbs (built from the field element, any pair is a valid container value)
+    let mut shs = shs;
+    for (i, (n, b)) in limb_edge_scalars().into_iter().enumerate() {
+        let raw = <C as Pairing>::SecretKeyShare::from_field_element([1u8, 2, 128, 255][i % 4], sc_from_be::<C>(&b)).expect("share from field element");
+        shs.push((format!("share value {}", n), SecretKeyShare::<C>(raw)));
+    }
     out.push(entry("SecretKeyShare", g, &x, false, shs.clone()));
     out.push(entry("PublicKeyShare", g, &x, true, shs.iter().map(|(n, s)| (n.clone(), s.public_key().unwrap())).collect()));
     let mut sshs: Vec<(String, SignatureShare<C>)> = vec![];
